@@ -862,7 +862,9 @@ def rules(rep, m):
         # the two loops are only guarded by the no-data test
         for lp_ in (build, extract):
             chain = [a_ for a_ in inv.enclosing_chain(f, lp_) if a_["kind"] in ("ForStmt", "WhileStmt")]
-            conds = inv.dominating_conditions(cx, f, lp_) + ["loop" for a_ in chain]
+            # (a shortcut 'already in order' is judged by the early-exit clause above)
+            conds = [cd for cd in inv.dominating_conditions(cx, f, lp_) if not cd.startswith("!cmi_dataset_is_sorted(")] + \
+                ["loop" for a_ in chain]
             # only "there are data" may guard a phase: an array pointer is set, or the count is at least 0, 1 or 2
             okg = all(re.fullmatch(r"\(\S+->(xa|ta) != NULL\)|!\(\S+->(xa|ta) == NULL\)|\(\S+->count (>|>=) [012]\)|"
                                    r"!\(\S+->count (<|<=|==) [012]\)|\(\S+->count != 0\)", c_) and
